@@ -47,7 +47,8 @@ def cases(tier, seed):
 
 
 def required():
-    return ['single:' + p.name for p in progs.cat() if not ({'nopb'} & p.tags)] + ['comp']
+    # 'refused': the tracer has no method / no pb_ for it and raises (the documented refusal), counted as skips
+    return ['single:' + p.name for p in progs.cat() if not ({'nopb', 'refused'} & p.tags) and p.name not in ('dot:TM',)] + ['comp']
 
 
 NOT_TRACEABLE_OK = True
@@ -130,6 +131,8 @@ def run_case(ctx, case):
     if case['kind'] == 'single':
         prog = progs.by_name(p['prog'])
         xs = prog.make_inputs(rng, D, P)
+        if not all(prog.in_domain([x[0, pp] for x in xs]) for pp in range(P)):
+            ctx.skip('out_of_domain:regularity-condition'); return
         bases = [x[0, 0] for x in xs] if p['rec_at_eval'] else prog.base_inputs(rng)
         duality(ctx, 'single:' + prog.name, prog.name, prog.f, xs, rng, p['rec'], bases, (prog.name, D, P, p['rec'], p['rec_at_eval']),
                 sample={'program': prog.name, 'D': D, 'P': P, 'rec': p['rec']} if rng.random() < 0.02 else None)
